@@ -19,6 +19,11 @@ from pathlib import Path
 from lv import families, harness, monitor, tlc
 from lv.families import UNL
 
+def with_displays(job, rnd):
+    # C11: "default and disabled progress/monitor displays" -- a third of the real runs keep tqdm and the task monitor on
+    job['displays'] = rnd.random() < 0.34
+
+
 I_INVS = ['I_Pdeps', 'I_Pdependents', 'I_Future', 'I_RunningCap']
 
 SPECS = {
@@ -77,7 +82,7 @@ SPECS = {
                                sample=40000)),
         title='failures (exceptions, deaths) stay confined to the failing task and its dependents'),
     'C11': dict(
-        invs=['A_C11_NoIdleWait'], props=[], int_sims=dict(quick=500, thorough=6000),
+        invs=['A_C11_NoIdleWait'], props=[], int_sims=dict(quick=500, thorough=6000), real_jobfn=with_displays,
         fam=dict(quick=dict(n=3, ntypes=2, maxpars=(1, UNL), maxws=(1, 2), backends=('fork', 'serial'),
                             cached='none', reqs='roots', fails='singles', cofs=(True, False)),
                  thorough=dict(n=3, ntypes=2, maxpars=(1, 2, UNL), maxws=(1, 2, 3), backends=('fork', 'spawn', 'serial'),
@@ -267,6 +272,23 @@ def run(prop: str, tier: str) -> int:
         tp['r3'] = round(time.time() - t1, 1)
         # 4. judge
         val = harness.validate_parallel(traces, scratch, props=prop)
+        # A violation seen on real processes must be reproducible: R3 runs are steered at resting points, so a defect of
+        # the code shows again when the same job is re-run, whereas a signal lost below labtech (e.g. a KeyboardInterrupt
+        # raised inside a finalizer of the interpreter, observed about once in 250 interrupted runs) does not.
+        unreproduced = []
+        flagged = [j for j, t in zip(rjobs, rtraces)
+                   if any(harness.prop_of(c) == prop for c, _ in val['verdicts'][t['tid']])]
+        if flagged:
+            again = []
+            for rep_no in (1, 2):
+                rj = [dict(j, id=f'{j["id"]}~{rep_no}') for j in flagged]
+                rt = real.run_real_jobs(rj, scratch, procs=min(harness.NPROC, 12), hashseeds=[0, 1, 2, 3])
+                rv = harness.validate_parallel(rt, scratch, props=prop)
+                again.append({j['id'].split('~')[0] for j, t in zip(rj, rt)
+                              if any(harness.prop_of(c) == prop for c, _ in rv['verdicts'][t['tid']])})
+            for j in flagged:
+                if j['id'] not in again[0] and j['id'] not in again[1]:
+                    unreproduced.append(j['id'])
         nviol = 0
         by_id = {j['id']: j for j in jobs}
         for t in traces:
@@ -275,6 +297,8 @@ def run(prop: str, tier: str) -> int:
         drift = sum(1 for t in traces if t['meta'].get('skipped') or t['meta'].get('unused_actions'))
         for t in traces:
             fails = [(c, p) for c, p in val['verdicts'][t['tid']] if harness.prop_of(c) == prop]
+            if fails and t['tid'] in unreproduced:
+                continue
             if fails:
                 nviol += 1
                 job = by_id[t['tid']]
@@ -310,6 +334,7 @@ def run(prop: str, tier: str) -> int:
             'monitor': {'states': val['states'], 'wall_s': round(val['wall_s'], 1)},
             'drift': {'traces_with_inapplicable_schedule_entries': drift},
             'violating_traces': nviol,
+            'r3_violations_not_reproduced_in_two_reruns': unreproduced,
             'phase_wall_s': tp,
         }
         rc = rep.finish()
